@@ -400,7 +400,7 @@ func init() {
 	})
 	register(&Check{
 		ID: "C16",
-		Expl: "Decides: (E1b.requires) the ROA table mutators (Add, Delete, DeleteAll) are only called with sharedData.mu held exclusively (the management context), so validation never observes a half-applied RTR update; (E4.decode-produces) every RTR PDU type with a serialiser is built by ParseRTR; (E4.rtr-handled) the handler's type switch covers every PDU type the parser can return; (E2c) the RTR parser never writes its input.",
+		Expl: "Decides: (E1b.requires) the ROA table mutators (Add, Delete, DeleteAll) are only called with sharedData.mu held exclusively (the management context), so validation never observes a half-applied RTR update; (E4.decode-produces) every RTR PDU type with a serialiser is built by ParseRTR; (E4.rtr-handled) the handler's type switch covers every PDU type the parser can return; (E2c) the RTR parser never writes its input; (E6.rtr-session-change) the session id is overwritten only after it was compared with the old one and the old session's records purged on change.",
 		Not: "RFC 6811 classification (valid / invalid / not-found), covering-prefix walks and ROA-set equality after PDU sequences are value-level and not decided.",
 		Run: func(c *Ctx) {
 			var req []reqRow
@@ -420,6 +420,7 @@ func init() {
 			c.ruleDecodeProduces("E4.decode-produces", []string{"pkg/packet/rtr"}, 8)
 			c.ruleInputImmutable("E2c.input", []string{"pkg/packet/rtr"}, 4)
 			c.ruleRTRHandled()
+			c.ruleSessionChangeDetected()
 		},
 	})
 }
